@@ -119,8 +119,9 @@ Fixpoint sort_kv {A} (l : list (bytes * A)) : list (bytes * A) :=
   | kv :: r => ins_kv kv (sort_kv r)
   end.
 
-(** * The serializer.  [nm] is the name emitter: the pinned tree writes names RAW ([raw_name]);
-    the incremental writer (and the proposed repair) use [esc_name]. *)
+(** * The serializer.  [nm] is the name emitter: before the repair the main writer wrote names
+    RAW ([raw_name], kept for the record lemmas named [..._pinned]); the repaired writer uses
+    [esc_iso]; the incremental writer uses [esc_name]. *)
 Definition raw_name (n : bytes) : bytes := n.
 
 (** incremental_update.rs write_name: alphanumerics and + - . _ @ $ : ; * ? are kept, all else #XX *)
@@ -133,6 +134,20 @@ Fixpoint esc_name (n : bytes) : bytes :=
   | [] => []
   | c :: r => if name_plain c then c :: esc_name r
               else 35 :: hexdig (c / 16) :: hexdig (c mod 16) :: esc_name r
+  end.
+
+(** text/encoding.rs escape_pdf_name (the repaired main writer, ISO 32000-1 7.3.5): a byte in
+    0x21..0x7E that is neither '#' nor one of ( ) < > [ ] { } / % is kept, every other byte of
+    the name's UTF-8 form is written #XX (upper-case hex) *)
+Definition iso_plain (c : N) : bool :=
+  (33 <=? c) && (c <=? 126)
+  && negb ((c =? 35) || (c =? 40) || (c =? 41) || (c =? 60) || (c =? 62) || (c =? 91) || (c =? 93)
+           || (c =? 123) || (c =? 125) || (c =? 47) || (c =? 37)).
+Fixpoint esc_iso (n : bytes) : bytes :=
+  match n with
+  | [] => []
+  | c :: r => if iso_plain c then c :: esc_iso r
+              else 35 :: hexdig (c / 16) :: hexdig (c mod 16) :: esc_iso r
   end.
 
 Section Ser.
@@ -658,15 +673,42 @@ Fixpoint arr_ok (l : list obj) : bool :=
   | [] => true
   end.
 
-Fixpoint wf (v : obj) : bool :=
+(** [nok]: which names the emitter in use can carry.  The repaired writer ([esc_iso]): every
+    name (a name is the UTF-8 byte string of the Rust String, bytes < 256); the writer before
+    the repair ([raw_name]): regular names only. *)
+Fixpoint wf_gen (nok : bytes -> bool) (v : obj) : bool :=
   match v with
   | OInt z => int_ok z
   | OReal neg m => real_ok neg m
   | OHex s => bytes_ok s
-  | OName n => regular_name n
-  | OArr l => forallb wf l && arr_ok l
-  | ODict l => forallb (fun kv => regular_name (fst kv) && wf (snd kv)) l
+  | OName n => nok n
+  | OArr l => forallb (wf_gen nok) l && arr_ok l
+  | ODict l => forallb (fun kv => nok (fst kv) && wf_gen nok (snd kv)) l
   | ORef n g => (n <=? 9999999) && (g <=? 65535)
+  | _ => true
+  end.
+Definition wf : obj -> bool := wf_gen bytes_ok.
+Definition wf_pinned : obj -> bool := wf_gen regular_name.
+
+(** The reader builds a name String from one char per byte (Latin-1 view); the String's own
+    UTF-8 form is [l1_utf8] of those bytes.  [strview] re-expresses every name of a parsed value
+    that way, so that it can be compared with the source names (UTF-8 of the source Strings):
+    the identity on ASCII names, and the remaining finding C09-name-nonascii otherwise. *)
+Definition l1_utf8 (n : bytes) : bytes :=
+  flat_map (fun c => if c <? 128 then [c] else [192 + c / 64; 128 + c mod 64]) n.
+Fixpoint strview (p : pobj) : pobj :=
+  match p with
+  | PName n => PName (l1_utf8 n)
+  | PArr l => PArr (map strview l)
+  | PDict l => PDict (map (fun '(k, x) => (l1_utf8 k, strview x)) l)
+  | _ => p
+  end.
+Definition ascii_name (n : bytes) : bool := forallb (fun c => c <? 128) n.
+Fixpoint ascii_names (v : obj) : bool :=
+  match v with
+  | OName n => ascii_name n
+  | OArr l => forallb ascii_names l
+  | ODict l => forallb (fun kv => ascii_name (fst kv) && ascii_names (snd kv)) l
   | _ => true
   end.
 
@@ -676,9 +718,9 @@ Fixpoint wf (v : obj) : bool :=
 Definition ser_case := (obj * bytes * option pobj)%type.
 Definition ser_code (c : ser_case) : N :=
   let '(v, impl_bytes, impl_parsed) := c in
-  let model_ok := bytes_eqb (ser raw_name v) impl_bytes
+  let model_ok := bytes_eqb (ser esc_iso v) impl_bytes
                   && opobj_eqb (option_map canon (parse impl_bytes)) impl_parsed in
-  let prop_ok := opobj_eqb (Some (canon (norm v))) impl_parsed in
+  let prop_ok := opobj_eqb (Some (canon (norm v))) (option_map (fun p => canon (strview p)) impl_parsed) in
   code_of model_ok prop_ok.
 
 (** channel lex: arbitrary token text -> what PdfObject::parse returned (model only; the
@@ -691,8 +733,6 @@ Definition lex_code (c : lex_case) : N :=
 (** channel incr: incremental writer (names #XX-escaped, strings hex) *)
 (** a parsed name is a String of chars <= 0xFF (Latin-1 view of the file's bytes); the
     incremental writer escapes the bytes of its UTF-8 form *)
-Definition l1_utf8 (n : bytes) : bytes :=
-  flat_map (fun c => if c <? 128 then [c] else [192 + c / 64; 128 + c mod 64]) n.
 Fixpoint ser_incr (v : obj) : bytes :=
   match v with
   | OName n => 47 :: esc_name (l1_utf8 n)
